@@ -13,7 +13,8 @@ What is covered, and what is NOT:
   GET /ports document of the result (`restore_get_ports_identical`), the first failing entry on the actual
   intermediate state (`reject_names_first_failing_entry`), the switches along a small-step trace of the try/finally
   (`switches_off_during_restore_and_on_afterwards`). PUT /device, PUT /devices: `restore_device`, `restore_slaves`,
-  `restore_slaves_doc`.
+  `restore_slaves_doc`; the switches along the small-step trace of the try/finally of PUT /devices
+  (`slaves_switches_off_during_restore_and_on_afterwards`).
 * NOT MODELLED: GET/PUT /peripherals (the fourth part of a backup in the frontend's backup/restore), the limit on
   the number of virtual ports, sequences, slave ports. "Full strength" below always means: of the PORTS part of the
   statement, on this model. The missing peripherals clause is named `restoreRoundtripWithPeripheralsFull` at the end
@@ -284,6 +285,69 @@ theorem switches_off_during_restore_and_on_afterwards (cfg : Cfg) (lc : LoopChec
     simp only [putPortsTrace, List.length_cons, e4]
     omega
 
+/-- **the switches along the try/finally of PUT /devices** (any document, any state, ANY outcome — including a
+validation failure at any entry). On the small-step trace of the call (`Proofs/BackupTrace.lean`, `putSlavesTrace`:
+the state after `disable`, after the removal of the old slave devices, after every entry the validation loop got to,
+after every added entry; then the `finally:` applied to the last of them):
+* the trace starts in the state the request found and ENDS exactly where the executable model `putSlavesDoc` ends —
+  same final state, same response;
+* in EVERY state between `disable` and `finally` polling and event delivery are OFF (removal, validation and
+  additions rewrite the slave registry only; the values are carried, not re-asserted);
+* the first state is the one the request found with the switches off, the second has an empty slave registry;
+* after the `finally:` both are ON — also when the validation raised;
+* accepted document: every entry was validated, then every entry added (`2 + n + n` states), and the state recorded
+  after the `k + 1`-th addition carries the registry the executable model `putSlaves` leaves on the first `k + 1`
+  entries;
+* document rejected at entry `i` (the FIRST entry that fails the schema — every earlier one is acceptable): the
+  states in between are exactly: switches off, then `i + 2` times the EMPTIED registry (after the removal and after
+  each of the `i + 1` entries validated) — nothing is added, the old slave devices are gone, and the `finally:` still
+  turns the switches on.
+That the CODE's `finally:` does what `switchesOn` does is checked by the harness probe, not by this theorem. -/
+theorem slaves_switches_off_during_restore_and_on_afterwards (st : BState) (docs : List (Option (String × Slave))) :
+    (putSlavesTrace st docs).before = st ∧
+    ((putSlavesTrace st docs).after, (putSlavesTrace st docs).resp) = putSlavesDoc st docs ∧
+    (∀ s ∈ (putSlavesTrace st docs).during, s.updating = false ∧ s.events = false) ∧
+    (putSlavesTrace st docs).during[0]? = some { st with events := false, updating := false } ∧
+    (∃ s, (putSlavesTrace st docs).during[1]? = some s ∧ ∀ n, s.slaves n = none) ∧
+    ((putSlavesTrace st docs).after.updating = true ∧ (putSlavesTrace st docs).after.events = true) ∧
+    ((putSlavesDoc st docs).2 = .ok →
+      (putSlavesTrace st docs).during.length = 2 + docs.length + docs.length ∧
+      (∀ k s, (putSlavesTrace st docs).during[2 + docs.length + k]? = some s →
+        s.slaves = (putSlaves st ((docs.filterMap id).take (k + 1))).slaves) ∧
+      (putSlavesTrace st docs).after.updating = true ∧ (putSlavesTrace st docs).after.events = true) ∧
+    (∀ i, (putSlavesDoc st docs).2 = .err i →
+      docs[i]? = some none ∧ (∀ m, m < i → ∃ x, docs[m]? = some (some x)) ∧
+      (putSlavesTrace st docs).during =
+        switchesOff st :: List.replicate (i + 2) (removeSlaves (switchesOff st)) ∧
+      (∀ n, (putSlavesTrace st docs).after.slaves n = none) ∧
+      (putSlavesTrace st docs).after.updating = true ∧ (putSlavesTrace st docs).after.events = true) := by
+  have hag := putSlavesTrace_agrees st docs
+  have hresp : (putSlavesTrace st docs).resp = (putSlavesDoc st docs).2 := congrArg Prod.snd hag
+  have hafter : (putSlavesTrace st docs).after = (putSlavesDoc st docs).1 := congrArg Prod.fst hag
+  have hlen := putSlavesTrace_length st docs
+  refine ⟨rfl, hag, putSlavesTrace_during_off st docs, rfl, ⟨_, rfl, fun _ => rfl⟩, ⟨rfl, rfl⟩, ?_, ?_⟩
+  · intro h
+    rw [← hresp] at h
+    exact ⟨hlen.1 h, fun k s hk => putSlavesTrace_prefix st docs k s h hk, rfl, rfl⟩
+  · intro i h
+    have hspec : docs[i]? = some none ∧ ∀ m, m < i → ∃ x, docs[m]? = some (some x) := by
+      simp only [putSlavesDoc] at h
+      cases hf : firstInvalid docs 0 with
+      | none => rw [hf] at h; cases h
+      | some j =>
+        rw [hf] at h
+        simp only [SlavesResp.err.injEq] at h
+        subst h
+        have := firstInvalid_spec docs 0 j hf
+        simpa using this.2
+    refine ⟨hspec.1, hspec.2, putSlavesTrace_failure st docs i (hresp.trans h), ?_, rfl, rfl⟩
+    intro n
+    rw [hafter]
+    simp only [putSlavesDoc] at h ⊢
+    cases hf : firstInvalid docs 0 with
+    | none => rw [hf] at h; cases h
+    | some j => rfl
+
 /-- **a rejected document names the failing entry and the switches are back on** — for all three restore calls.
 PUT /ports (repaired or not, any loop check): whatever the document and the state, afterwards polling (`updating`) and
 event delivery (`events`) are enabled, and an error carries the id of an entry of the document whose restore step
@@ -294,7 +358,9 @@ in every intermediate state and on after the `finally:` on the success AND the e
 driver-side change after a rejected document is still polled and still raises an event). Likewise the entry clause
 here is existential over SOME expression map and target; the statement about the FIRST failing entry on the ACTUAL
 intermediate state is `reject_names_first_failing_entry` (this clause is now derived from it).
-PUT /devices: the same switches are on afterwards (by construction, as above), and an error carries the index of the
+PUT /devices: the same switches are on afterwards (by construction here, as above; the small-step statement — off in
+every intermediate state, on after the `finally:` on the success AND the error path — is
+`slaves_switches_off_during_restore_and_on_afterwards`), and an error carries the index of the
 FIRST entry that fails the entry schema (every earlier entry is acceptable). PUT /device: a rejected document changes
 nothing at all — it validates before it touches anything and never uses the switches. -/
 theorem reject_names_entry_and_reenables (cfg : Cfg) (lc : LoopCheck) (clearFirst : Bool) (st : BState)
@@ -596,6 +662,51 @@ example : (witnessSrc.map (·.1)).Nodup ∧
       · subst h2; decide
       · simp only [h1, h2, if_false] at h
         cases h
+
+/-! ### non-vacuity of the PUT /devices trace -/
+
+def demoSlave (host : String) : Slave :=
+  { enabled := true, scheme := "http", host := host, port := 80, path := "/", pwHash := "h", pollInterval := 0,
+    listenEnabled := true, lastSync := 0, attrs := [], provAttrs := [] }
+
+/-- a target that has the slave device `old` registered, switches on -/
+def targetWithSlave : BState :=
+  { emptyState with slaves := fun n => if n = "old" then some (demoSlave "old.local") else none }
+
+/-- the second entry fails the POST /devices schema -/
+def badSlaveDocs : List (Option (String × Slave)) :=
+  [some ("s1", demoSlave "s1.local"), none, some ("s3", demoSlave "s3.local")]
+
+def goodSlaveDocs : List (Option (String × Slave)) :=
+  [some ("s1", demoSlave "s1.local"), some ("s3", demoSlave "s3.local")]
+
+/-- the trace of the rejected call: `disable` (old device still registered), removal, entry 0 validated, entry 1
+raises — four states, switches off in all of them although the target had them on; `old` is gone, nothing was added;
+the error carries index 1; the `finally:` turns the switches on -/
+example :
+    (putSlavesDoc targetWithSlave badSlaveDocs).2 = .err 1 ∧ (putSlavesTrace targetWithSlave badSlaveDocs).resp = .err 1 ∧
+    ((putSlavesTrace targetWithSlave badSlaveDocs).during.map
+      (fun s => (s.updating, s.events, (s.slaves "old").isSome, (s.slaves "s1").isSome))) =
+      [(false, false, true, false), (false, false, false, false), (false, false, false, false),
+       (false, false, false, false)] ∧
+    (targetWithSlave.updating, targetWithSlave.events) = (true, true) ∧
+    (let a := (putSlavesTrace targetWithSlave badSlaveDocs).after
+     (a.updating, a.events, (a.slaves "old").isSome, (a.slaves "s1").isSome, (a.slaves "s3").isSome)) =
+      (true, true, false, false, false) := by
+  decide
+
+/-- the trace of an accepted call: `disable`, removal, two entries validated, two entries added — six states,
+switches off in all of them; `s1` is registered from the fifth on, `s3` in the sixth; switches on afterwards -/
+example :
+    (putSlavesDoc targetWithSlave goodSlaveDocs).2 = .ok ∧
+    ((putSlavesTrace targetWithSlave goodSlaveDocs).during.map
+      (fun s => (s.updating, s.events, (s.slaves "old").isSome, (s.slaves "s1").isSome, (s.slaves "s3").isSome))) =
+      [(false, false, true, false, false), (false, false, false, false, false), (false, false, false, false, false),
+       (false, false, false, false, false), (false, false, false, true, false), (false, false, false, true, true)] ∧
+    (let a := (putSlavesTrace targetWithSlave goodSlaveDocs).after
+     (a.updating, a.events, (a.slaves "old").isSome, a.slaves "s1", (a.slaves "s3").isSome)) =
+      (true, true, false, some (demoSlave "s1.local"), true) := by
+  decide
 
 /-! ### what is missing: peripherals
 
